@@ -190,7 +190,13 @@ def ev(node, env: dict, funcs: dict | None = None, methods: dict | None = None):
                 sub_env = {k: v for k, v in env.items() if k == "self" or k.startswith("self.") or "." in k or callable(v)}
                 if ps and ps[0] != "self":
                     sub_env.update({ps[0] + k[4:]: v for k, v in env.items() if k == "self" or k.startswith("self.")})
-                return run_function(callee, bound, funcs, sub_env, methods=methods)
+                after = {}
+                result = run_function(callee, bound, funcs, sub_env, methods=methods, final_env=after)
+                pref = (ps[0] if ps else "self") + "."
+                for k, v in after.items():            # the helper's stores to self.<attr> are the caller's too
+                    if k.startswith(pref):
+                        env["self." + k[len(pref):]] = v
+                return result
             if isinstance(n.func, ast.Attribute) and n.func.attr in _CALENDAR_METHODS:
                 try:
                     obj = e(n.func.value, env)
